@@ -51,6 +51,16 @@ class SourceFile:
     def _value_to_code(self, value):
         return self._token_to_code(value_to_token(value))
 
+    def _same_tokens(self, node, tokens):
+        """Compares the tokens of the node with the tokens of generated
+        code.
+
+        The generated tokens have to be normalized in the same way
+        (the trailing comma of `(1,)` is removed from the tokens of the
+        node).
+        """
+        return self._token_of_node(node) == list(normalize(tokens))
+
     def _token_of_node(self, node):
 
         return list(
